@@ -73,9 +73,9 @@ Record good_cfg (cf : acfg) (lk : locked) : Prop := {
 }.
 
 (* everything the property needs to know about a successful bid, ledger aside *)
-Lemma place_bid_amounts cf lk a s who amt0 wd twa s' a' r :
+Lemma place_bid_amounts_gen auto cf lk a s who amt0 wd twa s' a' r :
   good_cfg cf lk -> good_auction cf lk a -> 0 <= twa < 9223372036854775808 ->
-  place_bid_core cf lk a s who amt0 wd twa = Ok (s', a', r) ->
+  place_bid_gen auto cf lk a s who amt0 wd twa = Ok (s', a', r) ->
   0 <= r_paid r <= a_debt a /\ 0 <= r_recv r <= a_coll a /\
   match a' with
   | Some b => r_closed r = false /\ 0 < r_paid r /\
@@ -93,7 +93,7 @@ Lemma place_bid_amounts cf lk a s who amt0 wd twa s' a' r :
   end.
 Proof.
   intros GC GA Htwa H. destruct GC, GA. pose proof (dp_nonneg lk twa Htwa) as Hdp.
-  unfold place_bid_core in H. fold (dp_of lk twa) in H.
+  unfold place_bid_gen in H. fold (dp_of lk twa) in H.
   destruct (Z.leb_spec amt0 0); [discriminate|]. destruct wd; [discriminate|].
   set (full := amt0 >=? a_debt a) in *. set (amt := if full then a_debt a else amt0) in *.
   apply obind_ok in H as (q & Hq & H). apply opanic_ok, conv_c_some in Hq as (Hq & _ & Hpr).
@@ -111,7 +111,7 @@ Proof.
     apply obind_ok in H as (L2 & _ & H). apply obind_ok in H as (L3 & _ & H).
     apply obind_ok in H as (L4 & _ & H). apply obind_ok in H as (L5 & _ & H).
     destruct ((tot1 <? 0) || (amt1 <? 0)) eqn:Hneg; [discriminate|].
-    apply obind_ok in H as ([L6 xf] & _ & H). injection H as <- <- <-. cbn.
+    apply obind_ok in H as ([[L6 xf] nf] & _ & H). injection H as <- <- <-. cbn.
     destruct exh eqn:Hexh.
     + apply obind_ok in Hx as (dal & Hdal & Hx). apply opanic_ok, conv_c_some in Hdal as (Hdal & _ & _).
       destruct (Z.ltb_spec dal 0); [discriminate|]. destruct (Z.ltb_spec (a_debt a - dal) 0); [discriminate|].
@@ -141,6 +141,35 @@ Proof.
     destruct ((q' + 0 <? 0) || (amt0 <? 0)) eqn:Hneg; [discriminate|].
     injection H as <- <- <-. cbn. rewrite Z.add_0_r. subst q'. rewrite <- Hq.
     repeat split; try lia.
+Qed.
+
+Lemma place_bid_amounts cf lk a s who amt0 wd twa s' a' r :
+  good_cfg cf lk -> good_auction cf lk a -> 0 <= twa < 9223372036854775808 ->
+  place_bid_core cf lk a s who amt0 wd twa = Ok (s', a', r) ->
+  0 <= r_paid r <= a_debt a /\ 0 <= r_recv r <= a_coll a /\
+  match a' with
+  | Some b => r_closed r = false /\ 0 < r_paid r /\
+              a_debt b = a_debt a - r_paid r /\ 0 < a_debt b /\ a_coll b = a_coll a - r_recv r /\
+              a_bonus b = a_bonus a /\ a_price b = a_price a /\ a_init b = a_init a /\
+              a_start b = a_start a /\ a_end b = a_end a /\
+              r_recv r = conv (c_dd cf) (dp_of lk twa) (r_paid r) (c_dc cf) (a_price a)
+  | None => r_closed r = true /\
+            (r_exh r = false -> r_paid r = a_debt a /\
+               r_recv r = conv (c_dd cf) (dp_of lk twa) (a_debt a) (c_dc cf) (a_price a) + r_bonus r) /\
+            (r_exh r = true -> r_recv r = a_coll a /\
+               r_paid r = conv (c_dc cf) (a_price a) (a_coll a - r_bonus r) (c_dd cf) (dp_of lk twa) /\
+               r_topup r = a_debt a - r_paid r /\ 0 <= r_topup r) /\
+            r_bonus r = conv (c_dd cf) (dp_of lk twa) (a_bonus a) (c_dc cf) (a_price a)
+  end.
+Proof. exact (place_bid_amounts_gen false cf lk a s who amt0 wd twa s' a' r). Qed.
+
+(* a successful PlaceDutchAuctionBid is a successful core bid *)
+Lemma place_bid_a_ok auto cf lk a s who amt0 wd dact twa x :
+  place_bid_a auto cf lk a s who amt0 wd dact twa = Ok x ->
+  dact = true /\ wd = false /\ 0 < amt0 /\ place_bid_gen auto cf lk a s who amt0 wd twa = Ok x.
+Proof.
+  unfold place_bid_a. destruct (Z.leb_spec amt0 0) as [|Hpos]; [discriminate|]. destruct wd; [discriminate|].
+  destruct dact; cbn [negb]; [|discriminate]. intros E. repeat split; auto.
 Qed.
 
 (* ---------- block ticks keep the record well-formed ---------- *)
@@ -201,30 +230,34 @@ Definition op_ok (o : op) : Prop :=
   match o with
   | Bid _ _ _ twa => 0 <= twa < 9223372036854775808
   | Tick _ pc _ => tick_in_ok pc
+  | Deposit _ _ _ _ => True
+  | Fill _ twa _ => 0 <= twa < 9223372036854775808
   end.
 
-Definition Inv (cf : acfg) (lk : locked) (f : life) : Prop :=
-  0 <= f_paid f /\ 0 <= f_recv f /\ 0 <= f_top f /\
-  match f_a f with
-  | Some a => good_auction cf lk a /\ f_paid f + a_debt a = l_target lk /\ f_recv f + a_coll a = l_coll lk /\
-              f_top f = 0
-  | None => f_paid f <= l_target lk /\ f_recv f <= l_coll lk /\
-            f_paid f + f_top f = l_target lk
+(* the totals of one auction: what the bidders paid (market bids: coins; fills: charged to limit bids) and
+   received so far, the reserve transfers, and the record *)
+Definition InvA (cf : acfg) (lk : locked) (p rc t : Z) (oa : option auction) : Prop :=
+  0 <= p /\ 0 <= rc /\ 0 <= t /\
+  match oa with
+  | Some a => good_auction cf lk a /\ p + a_debt a = l_target lk /\ rc + a_coll a = l_coll lk /\ t = 0
+  | None => p <= l_target lk /\ rc <= l_coll lk /\ p + t = l_target lk
   end.
+
+Definition Inv (cf : acfg) (lk : locked) (f : life) : Prop := InvA cf lk (f_paid f) (f_recv f) (f_top f) (f_a f).
 
 (* the reserve is only touched in the collateral-exhausted branch, and that branch closes *)
-Lemma topup_zero cf lk a s who amt wd twa s' a' r :
-  place_bid_core cf lk a s who amt wd twa = Ok (s', a', r) ->
+Lemma topup_zero_gen auto cf lk a s who amt wd twa s' a' r :
+  place_bid_gen auto cf lk a s who amt wd twa = Ok (s', a', r) ->
   (r_exh r = false -> r_topup r = 0 /\ rsv s' = rsv s) /\ (forall b, a' = Some b -> r_exh r = false).
 Proof.
-  intros E. unfold place_bid_core in E.
+  intros E. unfold place_bid_gen in E.
   destruct (amt <=? 0); [discriminate|]. destruct wd; [discriminate|].
   apply obind_ok in E as (q & _ & E). apply obind_ok in E as (qb & _ & E).
   destruct (_ || _).
   - apply obind_ok in E as ([[[? ?] ?] ?] & Hxx & E).
     apply obind_ok in E as (? & _ & E). apply obind_ok in E as (? & _ & E).
     apply obind_ok in E as (? & _ & E). apply obind_ok in E as (? & _ & E).
-    destruct ((_ <? 0) || (_ <? 0)); [discriminate|]. apply obind_ok in E as ([? ?] & _ & E).
+    destruct ((_ <? 0) || (_ <? 0)); [discriminate|]. apply obind_ok in E as ([[? ?] ?] & _ & E).
     injection E as <- <- <-. cbn. split; [|discriminate].
     intros Hx. rewrite Hx in Hxx. injection Hxx as _ _ <- <-. auto.
   - apply obind_ok in E as (? & _ & E). apply obind_ok in E as (? & _ & E).
@@ -233,29 +266,100 @@ Proof.
     destruct ((_ <? 0) || (_ <? 0)); [discriminate|]. injection E as <- <- <-. cbn. auto.
 Qed.
 
+Lemma topup_zero cf lk a s who amt wd twa s' a' r :
+  place_bid_core cf lk a s who amt wd twa = Ok (s', a', r) ->
+  (r_exh r = false -> r_topup r = 0 /\ rsv s' = rsv s) /\ (forall b, a' = Some b -> r_exh r = false).
+Proof. exact (topup_zero_gen false cf lk a s who amt wd twa s' a' r). Qed.
+
+(* one successful bid, market or automatic, moves the totals by its amounts *)
+Lemma bid_invA auto cf lk p rc t a s who amt wd twa s' a' r :
+  good_cfg cf lk -> 0 <= twa < 9223372036854775808 -> InvA cf lk p rc t (Some a) ->
+  place_bid_gen auto cf lk a s who amt wd twa = Ok (s', a', r) ->
+  InvA cf lk (p + r_paid r) (rc + r_recv r) (t + r_topup r) a'.
+Proof.
+  intros GC Ho (Hp & Hr & Ht & GA & Hd & Hc & Ht0) E.
+  pose proof (place_bid_amounts_gen _ _ _ _ _ _ _ _ _ _ _ _ GC GA Ho E) as (Hpaid & Hrecv & Hrest).
+  pose proof (topup_zero_gen _ _ _ _ _ _ _ _ _ _ _ _ E) as (Hz & Hpart).
+  unfold InvA. destruct a' as [b|].
+  - destruct Hrest as (_ & _ & Hdb & Hdb0 & Hcb & Hbb & Hpb & Hib & Hsb & Heb & _).
+    destruct (Hz (Hpart b eq_refl)) as (Hz1 & _). destruct GA.
+    repeat split; lia.
+  - destruct Hrest as (_ & Hne & He & _).
+    destruct (r_exh r) eqn:Hx.
+    + destruct (He eq_refl) as (_ & _ & Hsh & Htp). repeat split; lia.
+    + destruct (Hne eq_refl) as (Hpd & _). destruct (Hz eq_refl) as (Hz1 & _). repeat split; lia.
+Qed.
+
+Lemma log_paid_cons e log : log_paid (e :: log) = r_paid (fb_res e) + log_paid log. Proof. reflexivity. Qed.
+Lemma log_recv_cons e log : log_recv (e :: log) = r_recv (fb_res e) + log_recv log. Proof. reflexivity. Qed.
+Lemma log_top_cons e log : log_top (e :: log) = r_topup (fb_res e) + log_top log. Proof. reflexivity. Qed.
+Lemma log_charged_cons w e log :
+  log_charged w (e :: log) = (if fb_who e =? w then r_paid (fb_res e) else 0) + log_charged w log.
+Proof. reflexivity. Qed.
+
+(* the loop of a fill: every limit bid is an automatic bid on the auction as the previous one left it *)
+Lemma fill_loop_invA cf lk prem twa dact : 0 <= twa < 9223372036854775808 -> good_cfg cf lk ->
+  forall order a s bk pool p rc t s' a' bk' pool' log,
+  InvA cf lk p rc t (Some a) ->
+  fill_loop cf lk prem order twa dact a s bk pool = Ok (s', a', bk', pool', log) ->
+  InvA cf lk (p + log_paid log) (rc + log_recv log) (t + log_top log) a'.
+Proof.
+  intros Ho GC. induction order as [|w rest IH]; intros a s bk pool p rc t s' a' bk' pool' log HI E; cbn [fill_loop] in E.
+  - injection E as <- <- <- <- <-. cbn. replace (p + 0) with p by lia. replace (rc + 0) with rc by lia.
+    replace (t + 0) with t by lia. exact HI.
+  - destruct (bk prem w <=? 0); [exact (IH _ _ _ _ _ _ _ _ _ _ _ _ HI E)|].
+    apply obind_ok in E as ([[s1 a1] r] & E1 & E). apply place_bid_a_ok in E1 as (_ & _ & _ & E1).
+    destruct (r_paid r >? bk prem w); [discriminate|].
+    pose proof (bid_invA _ _ _ _ _ _ _ _ _ _ _ _ _ _ _ GC Ho HI E1) as HI1.
+    destruct a1 as [b|].
+    + apply obind_ok in E as ([[[[s2 a2] bk2] pool2] log2] & E2 & E). injection E as <- <- <- <- <-.
+      pose proof (IH _ _ _ _ _ _ _ _ _ _ _ _ HI1 E2) as HI2.
+      rewrite log_paid_cons, log_recv_cons, log_top_cons, !Z.add_assoc. exact HI2.
+    + injection E as <- <- <- <- <-.
+      rewrite log_paid_cons, log_recv_cons, log_top_cons, !Z.add_assoc. cbn [fb_res log_paid log_recv log_top fold_right].
+      rewrite !Z.add_0_r. exact HI1.
+Qed.
+
+Lemma fill_closure_cases cf lk order twa dact a s bk pool x :
+  fill_closure cf lk order twa dact a s bk pool = Ok x ->
+  x = (s, Some a, bk, pool, []) \/
+  exists prem, premium_of a = Ok (Some prem) /\ 0 <= prem /\ fill_loop cf lk prem order twa dact a s bk pool = Ok x.
+Proof.
+  unfold fill_closure. intros E. apply obind_ok in E as (op & Ep & E). destruct op as [prem|].
+  - destruct (Z.ltb_spec prem 0); [discriminate|]. destruct (negb _).
+    + injection E as <-. left. reflexivity.
+    + right. exists prem. auto.
+  - injection E as <-. left. reflexivity.
+Qed.
+
+Lemma fill_closure_invA cf lk order twa dact a s bk pool p rc t s' a' bk' pool' log :
+  0 <= twa < 9223372036854775808 -> good_cfg cf lk -> InvA cf lk p rc t (Some a) ->
+  fill_closure cf lk order twa dact a s bk pool = Ok (s', a', bk', pool', log) ->
+  InvA cf lk (p + log_paid log) (rc + log_recv log) (t + log_top log) a'.
+Proof.
+  intros Ho GC HI E. apply fill_closure_cases in E as [E|(prem & _ & _ & E)].
+  - injection E as -> -> -> -> ->. cbn. replace (p + 0) with p by lia. replace (rc + 0) with rc by lia.
+    replace (t + 0) with t by lia. exact HI.
+  - exact (fill_loop_invA cf lk prem twa dact Ho GC _ _ _ _ _ _ _ _ _ _ _ _ _ HI E).
+Qed.
+
 Lemma step_inv cf lk f o : good_cfg cf lk -> op_ok o -> Inv cf lk f -> Inv cf lk (step cf lk f o).
 Proof.
-  intros GC Ho (Hp & Hr & Ht & HI). unfold step.
-  destruct (f_a f) as [a|] eqn:Ea; [|unfold Inv; rewrite Ea; auto].
-  assert (HIf : Inv cf lk f) by (unfold Inv; rewrite Ea; auto).
-  destruct HI as (GA & Hd & Hc & Ht0).
-  destruct o as [who amt wd twa | now pc pd].
-  - destruct (place_bid_core cf lk a (f_s f) who amt wd twa) as [[[s' a'] r]| |] eqn:E;
-      try exact HIf.
-    pose proof (place_bid_amounts _ _ _ _ _ _ _ _ _ _ _ GC GA Ho E) as (Hpaid & Hrecv & Hrest).
-    pose proof (topup_zero _ _ _ _ _ _ _ _ _ _ _ E) as (Hz & Hpart).
-    unfold Inv; cbn. destruct a' as [b|].
-    + destruct Hrest as (_ & _ & Hdb & Hdb0 & Hcb & Hbb & Hpb & Hib & Hsb & Heb & _).
-      destruct (Hz (Hpart b eq_refl)) as (Hz1 & _). destruct GA.
-      repeat split; lia.
-    + destruct Hrest as (_ & Hne & He & _).
-      destruct (r_exh r) eqn:Hx.
-      * destruct (He eq_refl) as (_ & _ & Hsh & Htp). repeat split; lia.
-      * destruct (Hne eq_refl) as (Hpd & _). destruct (Hz eq_refl) as (Hz1 & _). repeat split; lia.
-  - unfold Inv; cbn. pose proof (tick_amounts cf lk now pc pd a) as (T1 & T2 & T3).
+  intros GC Ho HIf. unfold step.
+  destruct o as [who amt wd twa | now pc pd | who prem amt wd | order twa dact].
+  - destruct (f_a f) as [a|] eqn:Ea; [|exact HIf].
+    destruct (place_bid_core cf lk a (f_s f) who amt wd twa) as [[[s' a'] r]| |] eqn:E; try exact HIf.
+    unfold Inv in *. rewrite Ea in HIf. cbn. exact (bid_invA _ _ _ _ _ _ _ _ _ _ _ _ _ _ _ GC Ho HIf E).
+  - destruct (f_a f) as [a|] eqn:Ea; [|exact HIf].
+    unfold Inv in *. rewrite Ea in HIf. destruct HIf as (Hp & Hr & Ht & GA & Hd & Hc & Ht0). cbn.
+    pose proof (tick_amounts cf lk now pc pd a) as (T1 & T2 & T3).
     pose proof (tick_good cf lk now pc pd a GC GA Ho) as GT.
-    split; [lia|]. split; [lia|]. split; [lia|].
-    split; [exact GT|]. lia.
+    unfold InvA. split; [lia|]. split; [lia|]. split; [lia|]. split; [exact GT|]. lia.
+  - destruct (deposit _ _ _ _ _ _ _) as [[[s' bk'] pool']| |]; exact HIf.
+  - destruct (f_a f) as [a|] eqn:Ea; [|exact HIf].
+    destruct (fill_closure cf lk order twa dact a (f_s f) (f_book f) (f_pool f)) as [[[[[s' a'] bk'] pool'] log]| |] eqn:E;
+      try exact HIf.
+    unfold Inv in *. rewrite Ea in HIf. cbn. exact (fill_closure_invA _ _ _ _ _ _ _ _ _ _ _ _ _ _ _ _ _ Ho GC HIf E).
 Qed.
 
 Lemma run_inv cf lk ops : good_cfg cf lk -> Forall op_ok ops -> forall f, Inv cf lk f -> Inv cf lk (run cf lk f ops).
@@ -264,10 +368,10 @@ Proof.
   cbn. apply IH. apply step_inv; assumption.
 Qed.
 
-Lemma totals cf lk now pc pd a0 s ops :
+Lemma totals cf lk now pc pd a0 s bk pool ops :
   good_cfg cf lk -> 0 <= l_target lk -> 0 <= l_coll lk -> tick_in_ok pc ->
   activate cf lk now pc pd = Ok a0 -> Forall op_ok ops ->
-  let f := run cf lk (mkLife s (Some a0) 0 0 0) ops in
+  let f := run cf lk (mkLife s (Some a0) 0 0 0 bk pool) ops in
   0 <= f_paid f <= l_target lk /\ 0 <= f_recv f <= l_coll lk /\
   match f_a f with
   | Some a => f_paid f + a_debt a = l_target lk /\ f_recv f + a_coll a = l_coll lk /\ 0 <= a_debt a /\ 0 <= a_coll a /\
@@ -277,7 +381,7 @@ Lemma totals cf lk now pc pd a0 s ops :
 Proof.
   intros GC Ht Hc Hpc Ea Hops f.
   destruct (activate_good _ _ _ _ _ _ GC Ht Hc Hpc Ea) as (GA & Hd & Hcl & _).
-  assert (HI : Inv cf lk (mkLife s (Some a0) 0 0 0)) by (unfold Inv; cbn; split; [lia|]; split; [lia|]; split; [lia|]; split; [exact GA|]; lia).
+  assert (HI : Inv cf lk (mkLife s (Some a0) 0 0 0 bk pool)) by (unfold Inv, InvA; cbn; split; [lia|]; split; [lia|]; split; [lia|]; split; [exact GA|]; lia).
   pose proof (run_inv cf lk ops GC Hops _ HI) as (Hp & Hr & Htp & HF). fold f in Hp, Hr, Htp, HF.
   destruct (f_a f) as [a|].
   - destruct HF as (GA' & H1 & H2 & H3). destruct GA'. repeat split; lia.
